@@ -128,6 +128,15 @@ def reportOp : P String := do
     outFs (b.map (Allfed.Report.toPercent i) ++ b.map (Allfed.Report.toKcalsEquiv i kd))
   pure (outF (Allfed.Report.headline i x) ++ " " ++ toString i.nmonths ++ " " ++ " ".intercalate months)
 
+/-- report.nonhuman <inp> <assignment>
+    → number of months, then per month the ten numbers of `Report.nonhumanMonth`
+      (feed from stored food, crops, seaweed, sugar, SCP; then biofuel in the same order) -/
+def nonhumanOp : P String := do
+  let i ← inpP
+  let x ← assignP
+  let months := (Allfed.Report.nonhumanSeries i x).map outFs
+  pure (toString i.nmonths ++ " " ++ " ".intercalate months)
+
 /-- report.split n (produced eaten)* → (immediate newStored)* -/
 def splitOp : P String := do
   let n ← nat
@@ -166,6 +175,6 @@ def rowsScaledOp : P String := do
   pure (" ".intercalate (toString rows.length :: rows.map rowStr))
 
 def ops : List (String × P String) :=
-  [("lp.rows_scaled", rowsScaledOp), ("rounds.rel", relOp), ("rounds.demand", demandOp), ("rounds.totals", totalsOp), ("lp.rows", rowsOp), ("lp.floor", floorOp), ("lp.check", checkOp), ("report.series", reportOp), ("report.split", splitOp)]
+  [("lp.rows_scaled", rowsScaledOp), ("rounds.rel", relOp), ("rounds.demand", demandOp), ("rounds.totals", totalsOp), ("lp.rows", rowsOp), ("lp.floor", floorOp), ("lp.check", checkOp), ("report.series", reportOp), ("report.nonhuman", nonhumanOp), ("report.split", splitOp)]
 
 end Ops.LP
